@@ -32,14 +32,15 @@ def dispatch_table(o, disp):
 def nodal_imbalance(o, disp, tol=1e-6):
     """list of (node, step, sum) where the reported dispatch does not balance"""
     bad = []
-    scale = 1.0
-    for col, v in disp.items():
-        for e in v:
-            if e is not None:
-                scale = max(scale, abs(e))
     for n in o['nodes']:
         cols = [colname(o, a['name'], n) for a in o['assets'] if n in a['nodes']]
         cols = [c for c in cols if c in disp]
+        # the flows of this node set the scale (a node fed through a tiny conversion factor is not judged by the flows elsewhere)
+        scale = 1.0
+        for c in cols:
+            for e in disp[c]:
+                if e is not None:
+                    scale = max(scale, abs(e))
         for t in range(o['T']):
             s = sum((disp[c][t] or 0.0) for c in cols)
             if abs(s) > tol * scale:
@@ -190,3 +191,37 @@ def split_twin_specs(seed, n, tag, split=True):
         sp['seed'] = '%s/%s/%d' % (seed, tag, i)
         out.append(sp)
     return out
+
+
+def rescaled(specs, pf, vf):
+    """the same portfolios in other units: prices x pf, volumes / capacities x vf (e.g. GW and EUR/GWh)"""
+    import copy
+    out = []
+    VOL = ('min_cap', 'max_cap', 'size', 'cap_in', 'cap_out', 'start_level', 'end_level', 'inflow')
+    PRC = ('extra_costs', 'cost_in', 'cost_out', 'cost_store', 'costs_const')
+
+    def scale(v, f):
+        if isinstance(v, (int, float)):
+            return v * f
+        if isinstance(v, dict) and 'values' in v:
+            return dict(v, values=[x * f for x in v['values']])
+        return v
+    for sp in specs:
+        v = copy.deepcopy(sp)
+        capkeys = set(a[k] for a in v['assets'] for k in VOL if isinstance(a.get(k), str))
+        v['prices'] = {k: [x * (vf if k in capkeys else pf) for x in arr] for k, arr in v['prices'].items()}
+        for a in v['assets']:
+            for k in VOL:
+                if k in a:
+                    a[k] = scale(a[k], vf)
+            for k in PRC:
+                if k in a:
+                    a[k] = scale(a[k], pf)
+            for k in ('max_take', 'min_take'):
+                if k in a:
+                    a[k] = scale(a[k], vf)
+        v['id'] = sp['id'] + '_resc'
+        out.append(v)
+    return out
+
+
